@@ -124,7 +124,7 @@ func runC12(c *Ctx) {
 				if sc := k.Call.StaticCallee(); sc != nil && s.IsProcessMethod(sc) {
 					okKey = true
 					for _, ret := range returnsOf(sc) {
-						if PathOf(ret.Results[0]).LastField() != s.FReplicaName {
+						if PathOf(RetVals(ret)[0]).LastField() != s.FReplicaName {
 							okKey = false
 						}
 					}
